@@ -37,7 +37,10 @@ type C12Node struct {
 	// the require height (honoured only inside the documented domain).
 	CP            int `json:"cp,omitempty"`
 	MaxSendBlocks int `json:"max_send_blocks,omitempty"`
-	Batch         int `json:"batch,omitempty"` // pre-load batch size
+	// SubnetLimit > 0: WithMaxInflightRPCsPerSubnet (every node has its own
+	// /32, so this is a second, smaller cap on each peer's concurrent RPCs).
+	SubnetLimit int `json:"subnet_limit,omitempty"`
+	Batch       int `json:"batch,omitempty"` // pre-load batch size
 }
 
 // C12Edge is one connection: From dials To after DelayMS.
@@ -112,6 +115,10 @@ func genC12(t *rapid.T) C12Case {
 	c := C12Case{Tree: kit.GenTree(t, treeGenForNet()), Outline: rapid.Bool().Draw(t, "outline")}
 	c.Ext = genExt(t, rapid.IntRange(0, 2).Draw(t, "next"))
 	n := rapid.IntRange(2, 5).Draw(t, "nnodes")
+	// in a third of the clusters every node runs with a small per-subnet RPC
+	// budget: slots must come back whatever way a handler ends (a sync across a
+	// deep fork makes many SendHeaders handlers end with "not on our best chain")
+	smallLimits := rapid.IntRange(0, 2).Draw(t, "smalllimits") == 0
 	for i := 0; i < n; i++ {
 		nd := C12Node{Tip: rapid.IntRange(-1, 200).Draw(t, "tip"), MaxSendBlocks: rapid.SampledFrom([]int{0, 0, 1, 3, 10, 100, 150}).Draw(t, "maxsend"), Batch: rapid.SampledFrom([]int{0, 1, 7}).Draw(t, "batch")}
 		if nd.MaxSendBlocks > 0 && nd.MaxSendBlocks < 100 && !sendBlocksFixed && os.Getenv("VERIF_C12_ALL_BATCH") == "" {
@@ -120,6 +127,9 @@ func genC12(t *rapid.T) C12Case {
 			// from; excluded by construction until fixed
 			nd.MaxSendBlocks = 0
 			c.Excluded = "F-C12-1/max-send-blocks-below-request-size"
+		}
+		if smallLimits {
+			nd.SubnetLimit = rapid.IntRange(3, 8).Draw(t, "subnetlimit")
 		}
 		if rapid.IntRange(0, 4).Draw(t, "cproll") == 0 {
 			nd.CP = rapid.IntRange(1, 6).Draw(t, "cp")
@@ -334,6 +344,10 @@ func runC12(c C12Case, cs *kit.CaseStats) error {
 		if nd.MaxSendBlocks > 0 {
 			opts = append(opts, syncer.WithMaxSendBlocks(uint64(nd.MaxSendBlocks)))
 		}
+		if nd.SubnetLimit > 0 {
+			opts = append(opts, syncer.WithMaxInflightRPCsPerSubnet(nd.SubnetLimit))
+			cs.Class("small-subnet-rpc-budget")
+		}
 		sn, err := p2px.StartSyncer(kn, p2px.NodeConfig{Name: fmt.Sprintf("n%d", i), IP: p2px.ListenIP(i), UID: p2px.DetUniqueID("c12", i), Opts: opts})
 		if err != nil {
 			kn.Close()
@@ -346,8 +360,14 @@ func runC12(c C12Case, cs *kit.CaseStats) error {
 	type edge struct{ a, b int }
 	var edges []edge
 	seen := map[edge]bool{}
-	connect := func(a, b int) {
-		nodes[a].sn.Connect(nodes[b].sn, 10*time.Second)
+	connect := func(a, b int) error {
+		return nodes[a].sn.Connect(nodes[b].sn, 10*time.Second)
+	}
+	hasCheckpoint := false
+	for _, n := range nodes {
+		if n.floor > 0 {
+			hasCheckpoint = true
+		}
 	}
 	for _, e := range c.Edges {
 		a, b := mod(e.From, len(nodes)), mod(e.To, len(nodes))
@@ -418,14 +438,22 @@ func runC12(c C12Case, cs *kit.CaseStats) error {
 		if mk != moveKey {
 			moveKey, lastMove = mk, time.Now()
 		}
-		allLive := true
+		allLive, redialled := true, true
 		for _, e := range edges {
 			if !edgeLive(e) {
 				allLive = false
 				reconnects++
-				connect(e.a, e.b)
+				if connect(e.a, e.b) != nil {
+					redialled = false
+				}
 			}
 		}
+		// Among full nodes there is always common history (genesis), so a node has
+		// no reason to drop an honest peer; an edge that went down and was
+		// re-dialled successfully counts as "up" for the stall oracle (a node that
+		// keeps hanging up on its peers makes no progress either). With checkpoint
+		// nodes "no common history" is legitimate, there the edge must really be up.
+		stallLive := allLive || (!hasCheckpoint && redialled)
 		allSynced := true
 		for _, n := range nodes {
 			if _, ok := n.sn.PeerState(); !ok {
@@ -448,7 +476,7 @@ func runC12(c C12Case, cs *kit.CaseStats) error {
 				}
 				key += fmt.Sprintf("%v/%d;", n.sn.Node.CM.Tip(), n.sn.CM.SubmittedCount())
 			}
-			if stall.observe(allLive && lighter, key) && stallOracle() {
+			if stall.observe(stallLive && lighter, key) && stallOracle() {
 				var flags []string
 				for i, n := range nodes {
 					var ps []string
@@ -457,8 +485,8 @@ func runC12(c C12Case, cs *kit.CaseStats) error {
 					}
 					flags = append(flags, fmt.Sprintf("node %d tip %v blocks-handed-in %d peers [%s]", i, n.sn.Node.CM.Tip(), n.sn.CM.SubmittedCount(), strings.Join(ps, "; ")))
 				}
-				stalled = fmt.Sprintf("no progress for %v (no tip moved, no new block reached any manager) although every connection is up, tips are re-announced every 200 ms and %v is sufficiently heavier than some node's tip\n%s\ngoroutines inside the syncer:\n%s",
-					stallWindow(), dom.Index(), strings.Join(flags, "\n"), p2px.ClipStacks(p2px.StacksWith("coreutils/syncer."), 10))
+				stalled = fmt.Sprintf("no progress for %v (no tip moved, no new block reached any manager) although every connection is up (or was re-dialled at once: %d re-dials so far), tips are re-announced every 200 ms and %v is sufficiently heavier than some node's tip\n%s\ngoroutines inside the syncer:\n%s",
+					stallWindow(), reconnects, dom.Index(), strings.Join(flags, "\n"), p2px.ClipStacks(p2px.StacksWith("coreutils/syncer."), 10))
 				break
 			}
 		}
